@@ -64,9 +64,14 @@ PARTIAL = [
     "statistical clause (stationary Gaussian noise of mean m and rms s gives maps equal to m and s within sampling "
     "error): NOT a theorem; sampled by the harness on Gaussian images (exploration): |bkg-m| <= 6 s/sqrt(n) and "
     "|rms/s - 0.986| <= 0.05 + 6/sqrt(2n), n = smallest box population",
-    "finite_far_from_blanks (every pixel farther than box/2+grid from all blank pixels is finite): proved only at "
-    "box level (nodeVal_isSome: a non-empty box that reads no blank gives a finite node; no_blanks_no_nans for "
-    "blank-free images); the metric form is checked on the implementation by the harness ('far-pixels-checked')",
+    "finite_far_from_blanks is proved (metric form, both modes, mask on or off) for the repaired box clamp e = 0 only; "
+    "with the pinned clamp (e = 1) the last row/column is in no box and the statement needs rows/cols >= 2 and a pixel "
+    "not on the last row/column: not proved for e = 1 (the code under test has e = 0)",
+    "rms_in_range_own_partial, const_image_own_partial: pinned own-rows subtraction, one stripe only (rmsFn_own_single)",
+    "file plumbing (filterImage_returned, file_times_bscale_is_returned, compressed_file_is_returned_at_nodes, "
+    "filterImage_plane_only, filterImage_bscale_is_scale): a model of which array is scaled / returned / written; the "
+    "float32 cast, FITS headers other than BSCALE/NAXIS/NAXIS3 and fits_tools.expand are not modelled; tied to the code "
+    "by the option-matrix correspondence (files vs returned maps, with the model's decIdx for compressed files)",
     "masked_iff_nonfinite is an iff with the interpolants' own NaNs as a disjunct; 'NaN iff input non-finite' "
     "follows only where the interpolants are finite (no_blanks_no_nans)",
     "float rounding / float32 cast: sampled (tolerance class F32), not proved",
@@ -623,15 +628,11 @@ def spec_single(ctx, job, res):
             fdat = res['file_' + w]   # astropy applies the file's BSCALE on read: image units
             if job['via'] == 'compressed':
                 f = job['grid'][0] if job['grid'][0] == job['grid'][1] else min(job['grid'])
-                want = m[::f, ::f]
-                nx, ny = want.shape
+                ri, ci = dec_indices(ctx, R, f), dec_indices(ctx, C, f)
+                nx, ny = len(ri) - 1, len(ci) - 1
                 good = fdat.shape == (nx + 1, ny + 1)
                 if good:
-                    okc, idx, det = f32_close(fdat[:nx, :ny], want, scale)
-                    ok2, _, det2 = f32_close(fdat[-1, :ny], m[-1, ::f], scale)
-                    ok3, _, det3 = f32_close(fdat[:nx, -1], m[::f, -1], scale)
-                    good = okc and ok2 and ok3 and f32_close(fdat[-1, -1], m[-1, -1], scale)[0]
-                    det = det or det2 or det3
+                    good, idx, det = f32_close(fdat, m[np.ix_(ri, ci)], scale)
                 else:
                     det = f"compressed shape {fdat.shape}, expected {(nx + 1, ny + 1)}"
                 if not good:
@@ -660,6 +661,26 @@ def spec_single(ctx, job, res):
         ctx.fail('spec', case_of(job), f"the compressed output cannot be expanded: {res['expand_error']}", sig('expand-raises', job))
         ok = False
     return ok
+
+
+_DEC = {}
+
+
+def dec_indices(ctx, n, f):
+    """file index -> map index of a compressed output: the Lean model's `decIdx` (driver op `dec`), so that the
+    theorem compressed_file_is_returned_at_nodes is what the files are compared with; Python formula as fallback"""
+    if not _DEC and ctx.driver_ok:
+        keys = [(a, b) for a in range(1, 121) for b in range(1, 9)]
+        try:
+            outs = ctx.driver.batch([f"dec {a} {b}" for a, b in keys])
+            for k, o in zip(keys, outs):
+                _DEC[k] = [int(t) for t in o.split()]
+        except Exception:
+            _DEC[(0, 0)] = []
+    if (n, f) in _DEC:
+        ctx.count('dec-indices-from-model')
+        return _DEC[(n, f)]
+    return list(range(0, n, f)) + [n - 1]
 
 
 def range_const(ctx, job, lo, hi, scale, bmap, rmap, where):
